@@ -58,6 +58,10 @@ def new_constants(tree, ref_names):
                 counts[nm] = counts.get(nm, 0) + 10
         elif isinstance(n, ast.arg):
             counts[n.arg] = counts.get(n.arg, 0) + 10
+    # a class-level name that is also stored through an instance / class (`self.x = ...`) is a default, not a constant
+    attr_stored = {n.attr for n in ast.walk(tree) if isinstance(n, ast.Attribute) and isinstance(n.ctx, (ast.Store, ast.Del))}
+    attr_stored |= {c.args[1].value for c in ast.walk(tree) if isinstance(c, ast.Call) and isinstance(c.func, ast.Name) and c.func.id == "setattr"
+                    and len(c.args) >= 2 and isinstance(c.args[1], ast.Constant) and isinstance(c.args[1].value, str)}
     mod_consts, cls_consts = {}, {}
     known = {}
     for _ in range(3):
@@ -80,6 +84,8 @@ def new_constants(tree, ref_names):
                         try:
                             v = _literal(b.value, known)
                         except ValueError:
+                            continue
+                        if nm in attr_stored:
                             continue
                         if "%s.%s" % (st.name, nm) not in ref_names:
                             cls_consts[(st.name, nm)] = v
